@@ -16,7 +16,7 @@ CONSTANTS
   Amts = {2, 4}
   Mins = {0, 1}
   Liqs = {2}
-  Donations = {1}
+  Donations = {}
   DlOffs = {1}
   MaxNow = 1
   Senders = {"u1"}
